@@ -232,6 +232,12 @@ def judge(d, sc):
             xid = [h for h in t['res_headers'] if h and h[0] == 'X-Id']
             if not xid or xid[0][1] != 'f%d-%s' % (k, sc['nonce']):
                 errs.append(('followup_pairing', '%s carries response %r' % (tag, xid[0][1] if xid else None)))
+        # "resumes normal parsing": every exchange of the connection whose two sides are complete - the refused CONNECT itself, what
+        # came before it and what follows - is reported to the application (TRANSACTION_COMPLETE ran for it)
+        for k, t in enumerate(txs):
+            if t is not None and t['req_progress'] == 5 and t['res_progress'] == 5 and t.get('txc', 1) < 1:
+                errs.append(('tx_never_reported', 'transaction %d (%r, status %r) is complete on both sides but TRANSACTION_COMPLETE never ran for it' % (k, t['uri'], t['status_n'])))
+                break
         if len(got) != want:
             errs.append(('followup_count', '%d transactions after the CONNECT, %d expected' % (len(got), want)))
         if d['in_status'] == ERROR or d['out_status'] == ERROR:
@@ -276,7 +282,7 @@ def shard(args):
         seen = set()
         for k, det in errs:
             key = k
-            if early and k in ('stream_error', 'followup_request', 'followup_count', 'followup_pairing', 'followup_incomplete', 'followup_body') and (cfg.get('AUTO_DESTROY') or cfg.get('DESTROY_DONE')):
+            if early and k in ('stream_error', 'followup_request', 'followup_count', 'followup_pairing', 'followup_incomplete', 'followup_body', 'tx_never_reported') and (cfg.get('AUTO_DESTROY') or cfg.get('DESTROY_DONE')):
                 key = k + '@early_data_other+tx_destroyed'
             if key in seen:
                 continue
